@@ -4,6 +4,7 @@
   generated `UnmarshalJSON` mentions declared fields and switches on a string field.
 -/
 import ApiFu.C20.LemLevel4
+import ApiFu.C20.LemNames
 
 namespace ApiFu.C20
 
@@ -149,5 +150,146 @@ def StOK (names : List Name) (st : St) : Prop := ∀ d ∈ st.decls, declOK name
 /-- The typedef of every fragment of the document is declared. -/
 def FragNames (ft : List (Name × Name)) (names : List Name) : Prop :=
   ∀ f, ft.any (fun p => p.1 == f) = true → (f ++ n_Fragment) ∈ names
+
+/-! ### Distinctness of the declared identifiers -/
+
+/-- The naming assumptions: no composite type name ends in a digit (F-20g otherwise), and neither an
+    enum name nor a typedef name (`<Op>Data`, `<F>Fragment`; the list `tds`) begins with `sel` or
+    coincides with one of the other kind. -/
+structure NamesHyp (S : Schema) (tds : List Name) : Prop where
+  comp : ∀ td ∈ S.types, isComposite td = true → noDigitEnd td.name = true
+  enumNoSel : ∀ nm vs, TypeDef.enum nm vs ∈ S.types → startsWithSel nm = false
+  tdNoSel : ∀ n ∈ tds, startsWithSel n = false
+  enumNotTd : ∀ nm vs, TypeDef.enum nm vs ∈ S.types → nm ∉ tds
+
+/-- What a declaration's name looks like, given the state that emitted it. -/
+def NameShape (S : Schema) (tds : List Name) (st : St) : Decl → Prop
+  | .sel n _ _ => ∃ td k, td ∈ S.types ∧ isComposite td = true ∧ n = n_sel ++ td.name ++ natDigits k ∧ k < st.count
+  | .enum n _ => n ∈ st.enums ∧ ∃ vs, TypeDef.enum n vs ∈ S.types
+  | .typedef n _ _ => n ∈ tds
+
+/-- The declared names are distinct and have the expected shapes. -/
+def NameInv (S : Schema) (tds : List Name) (st : St) : Prop :=
+  (st.decls.map Decl.name).Nodup ∧ ∀ d ∈ st.decls, NameShape S tds st d
+
+theorem nameInv_add_sel {S : Schema} {tds : List Name} (hN : NamesHyp S tds) {st : St} (h : NameInv S tds st)
+    {td : TypeDef} (htd : td ∈ S.types) (hc : isComposite td = true) (fs : List GoField) (acts : List Action) :
+    NameInv S tds { st with decls := st.decls ++ [.sel (n_sel ++ td.name ++ natDigits st.count) fs acts],
+                            count := st.count + 1 } := by
+  obtain ⟨hnd, hsh⟩ := h
+  constructor
+  · simp only [List.map_append, List.map_cons, List.map_nil, Decl.name]
+    apply List.nodup_append.mpr
+    refine ⟨hnd, by simp, ?_⟩
+    intro a ha b hb
+    simp only [List.mem_singleton] at hb
+    subst hb
+    obtain ⟨d, hd, rfl⟩ := List.mem_map.mp ha
+    intro heq
+    have := hsh d hd
+    cases d with
+    | sel n fs' acts' =>
+      obtain ⟨td', k, htd', hc', hn, hk⟩ := this
+      simp only [Decl.name] at heq
+      rw [hn] at heq
+      have := sel_name_inj (hN.comp td' htd' hc') (hN.comp td htd hc) heq
+      omega
+    | enum n cs =>
+      obtain ⟨_, vs, hvs⟩ := this
+      simp only [Decl.name] at heq
+      have h1 := hN.enumNoSel n vs hvs
+      rw [heq, List.append_assoc, startsWithSel_sel] at h1
+      cases h1
+    | typedef n t f =>
+      simp only [Decl.name] at heq
+      have h1 := hN.tdNoSel n this
+      rw [heq, List.append_assoc, startsWithSel_sel] at h1
+      cases h1
+  · intro d hd
+    simp only [List.mem_append, List.mem_singleton] at hd
+    rcases hd with hd | rfl
+    · have := hsh d hd
+      cases d with
+      | sel n fs' acts' =>
+        obtain ⟨td', k, h1, h2, h3, h4⟩ := this
+        exact ⟨td', k, h1, h2, h3, Nat.lt_succ_of_lt h4⟩
+      | enum n cs => exact this
+      | typedef n t f => exact this
+    · exact ⟨td, st.count, htd, hc, rfl, Nat.lt_succ_self _⟩
+
+theorem nameInv_add_enum {S : Schema} {tds : List Name} (hN : NamesHyp S tds) {st : St} (h : NameInv S tds st)
+    {nm : Name} {vs : List Name} (hvs : TypeDef.enum nm vs ∈ S.types) (hnew : nm ∉ st.enums) (cs : List (Name × Name)) :
+    NameInv S tds { st with decls := st.decls ++ [.enum nm cs], enums := nm :: st.enums } := by
+  obtain ⟨hnd, hsh⟩ := h
+  constructor
+  · simp only [List.map_append, List.map_cons, List.map_nil, Decl.name]
+    apply List.nodup_append.mpr
+    refine ⟨hnd, by simp, ?_⟩
+    intro a ha b hb
+    simp only [List.mem_singleton] at hb
+    obtain ⟨d, hd, rfl⟩ := List.mem_map.mp ha
+    intro heq
+    rw [hb] at heq
+    have := hsh d hd
+    cases d with
+    | sel n fs' acts' =>
+      obtain ⟨td', k, _, _, hn, _⟩ := this
+      simp only [Decl.name] at heq
+      have h1 := hN.enumNoSel nm vs hvs
+      rw [← heq, hn, List.append_assoc, startsWithSel_sel] at h1
+      cases h1
+    | enum n cs' =>
+      simp only [Decl.name] at heq
+      exact hnew (heq ▸ this.1)
+    | typedef n t f =>
+      simp only [Decl.name] at heq
+      exact hN.enumNotTd nm vs hvs (heq ▸ this)
+  · intro d hd
+    simp only [List.mem_append, List.mem_singleton] at hd
+    rcases hd with hd | rfl
+    · have := hsh d hd
+      cases d with
+      | sel n fs' acts' => exact this
+      | enum n cs' => exact ⟨List.mem_cons_of_mem _ this.1, this.2⟩
+      | typedef n t f => exact this
+    · exact ⟨List.mem_cons_self, vs, hvs⟩
+
+theorem nameInv_add_typedef {S : Schema} {tds : List Name} (hN : NamesHyp S tds) {st : St} (h : NameInv S tds st)
+    {n : Name} (hn : n ∈ tds) (hfresh : ∀ d ∈ st.decls, ∀ m t f, d = Decl.typedef m t f → m ≠ n) (ty : GoTy) (fwd : Bool) :
+    NameInv S tds { st with decls := st.decls ++ [.typedef n ty fwd] } := by
+  obtain ⟨hnd, hsh⟩ := h
+  constructor
+  · simp only [List.map_append, List.map_cons, List.map_nil, Decl.name]
+    apply List.nodup_append.mpr
+    refine ⟨hnd, by simp, ?_⟩
+    intro a ha b hb
+    simp only [List.mem_singleton] at hb
+    subst hb
+    obtain ⟨d, hd, rfl⟩ := List.mem_map.mp ha
+    intro heq
+    have := hsh d hd
+    cases d with
+    | sel m fs' acts' =>
+      obtain ⟨td', k, _, _, hm, _⟩ := this
+      simp only [Decl.name] at heq
+      have h1 := hN.tdNoSel _ hn
+      rw [← heq, hm, List.append_assoc, startsWithSel_sel] at h1
+      cases h1
+    | enum m cs' =>
+      obtain ⟨_, vs, hvs⟩ := this
+      simp only [Decl.name] at heq
+      exact hN.enumNotTd m vs hvs (heq ▸ hn)
+    | typedef m t f =>
+      simp only [Decl.name] at heq
+      exact hfresh _ hd m t f rfl heq
+  · intro d hd
+    simp only [List.mem_append, List.mem_singleton] at hd
+    rcases hd with hd | rfl
+    · have := hsh d hd
+      cases d with
+      | sel m fs' acts' => exact this
+      | enum m cs' => exact this
+      | typedef m t f => exact this
+    · exact hn
 
 end ApiFu.C20
